@@ -9,7 +9,11 @@ namespace SigV4.C14
 /-- At most one provider call per validation. -/
 theorem at_most_once {σ : Type} (H : Bytes → Bytes) (cfg : Config) (P : Provider σ) (s : σ) (req : Request) :
     (validate H cfg P s req).calls.length ≤ 1 := by
-  sorry
+  rcases validate_cases H cfg P s req with ⟨hc, _⟩ | ⟨a, fp, sts, _, _, _, _, hv⟩
+  · rw [hc]; exact Nat.zero_le _
+  · rw [hv]
+    simp only [finish]
+    rcases getSigningKey_calls P s a cfg.region cfg.service with h | ⟨_, h⟩ <;> rw [h] <;> simp
 
 /-- A call happens only for requests that passed every structural, signed-header, freshness and
 scope check, only after readiness, and with the request built from the authenticator. -/
@@ -17,7 +21,14 @@ theorem only_after_prechecks {σ : Type} (H : Bytes → Bytes) (cfg : Config) (P
     (req : Request) (c : ProviderReq) (hc : c ∈ (validate H cfg P s req).calls) :
     ∃ a, authOf H cfg req = .ok a ∧ prevalidate a cfg.region cfg.service cfg.now = .ok () ∧
       (P.ready s).1 = none ∧ c = providerReqOf a cfg.region cfg.service := by
-  sorry
+  rcases validate_cases H cfg P s req with ⟨hcalls, _⟩ | ⟨a, fp, sts, ha, _, hpre, _, hv⟩
+  · rw [hcalls] at hc; cases hc
+  · rw [hv] at hc
+    simp only [finish] at hc
+    rcases getSigningKey_calls P s a cfg.region cfg.service with h | ⟨hr, h⟩
+    · rw [h] at hc; cases hc
+    · rw [h] at hc
+      exact ⟨a, ha, hpre, hr, List.mem_singleton.1 hc⟩
 
 /-- A request that fails any pre-check leaves the provider alone: no call, not even a readiness poll
 (its state is untouched). -/
@@ -27,7 +38,12 @@ theorem defective_request_no_provider {σ : Type} (H : Bytes → Bytes) (cfg : C
          (∃ a k, authOf H cfg req = .ok a ∧ prevalidate a cfg.region cfg.service cfg.now = .err k)) :
     (validate H cfg P s req).calls = [] ∧ (validate H cfg P s req).state = s ∧
     ∃ k, (validate H cfg P s req).out = .err k := by
-  sorry
+  rcases h with ⟨k, hk⟩ | ⟨a, k, ha, hpre⟩
+  · rw [validate_of_authOf_err H cfg P s req k hk]
+    exact ⟨rfl, rfl, k, rfl⟩
+  · obtain ⟨fp, _, _, hv⟩ := validate_of_authOf_ok H cfg P s req a ha
+    rw [hv, validateSignature_prevalidate_err H P s a _ _ _ k hpre]
+    exact ⟨rfl, rfl, k, rfl⟩
 
 /-- A provider that reports a readiness error is never called; the error is mapped like any other. -/
 theorem not_ready_no_call {σ : Type} (H : Bytes → Bytes) (cfg : Config) (P : Provider σ) (s s' : σ)
@@ -36,7 +52,11 @@ theorem not_ready_no_call {σ : Type} (H : Bytes → Bytes) (cfg : Config) (P : 
     (hr : P.ready s = (some e, s')) :
     (validate H cfg P s req).out = .err e.toKind ∧ (validate H cfg P s req).calls = [] ∧
     (validate H cfg P s req).state = s' := by
-  sorry
+  obtain ⟨fp, _, _, hv⟩ := validate_of_authOf_ok H cfg P s req a ha
+  obtain ⟨sts, hsts⟩ := stringToSign_ok_of_prevalidate hp
+  rw [hv, validateSignature_of_prevalidate_ok H P s a _ _ _ sts hp hsts,
+    getSigningKey_not_ready P s s' a _ _ e hr]
+  exact ⟨rfl, rfl, rfl⟩
 
 /-- Error mapping: a `SignatureError` from the provider is returned unchanged, anything else becomes
 an internal failure (500). -/
@@ -47,11 +67,15 @@ theorem error_mapping {σ : Type} (H : Bytes → Bytes) (cfg : Config) (P : Prov
     (validate H cfg P s req).out = .err e.toKind ∧
     (validate H cfg P s req).calls = [providerReqOf a cfg.region cfg.service] ∧
     (validate H cfg P s req).state = s'' := by
-  sorry
+  obtain ⟨fp, _, _, hv⟩ := validate_of_authOf_ok H cfg P s req a ha
+  obtain ⟨sts, hsts⟩ := stringToSign_ok_of_prevalidate hp
+  rw [hv, validateSignature_of_prevalidate_ok H P s a _ _ _ sts hp hsts,
+    getSigningKey_call_err P s s' s'' a _ _ e hr hcall]
+  exact ⟨rfl, rfl, rfl⟩
 
 theorem provErr_kinds : (∀ k, (ProvErr.sig k).toKind = k) ∧ ProvErr.foreign.toKind = .InternalServiceError ∧
     ErrKind.InternalServiceError.status = 500 := by
-  sorry
+  exact ⟨fun _ => rfl, rfl, rfl⟩
 
 /-- No provider error, readiness error or absent answer ever results in acceptance: success
 requires readiness and a key, and the signature must verify under that key. -/
@@ -60,7 +84,21 @@ theorem never_ok_on_error {σ : Type} (H : Bytes → Bytes) (cfg : Config) (P : 
     ∃ a resp sts, authOf H cfg req = .ok a ∧ (P.ready s).1 = none ∧
       (P.call (P.ready s).2 (providerReqOf a cfg.region cfg.service)).1 = .ok resp ∧
       stringToSign a = .ok sts ∧ a.signature = hexLower (hmac H resp.key sts) ∧ r.identity = resp.identity := by
-  sorry
+  rcases validate_cases H cfg P s req with ⟨_, _, hno, _⟩ | ⟨a, fp, sts, ha, _, _, hsts, hv⟩
+  · exact absurd h (hno r)
+  · rw [hv] at h
+    simp only [finish] at h
+    rcases getSigningKey_cases P s a cfg.region cfg.service with
+      ⟨e, _, hg⟩ | ⟨_, e, _, hg⟩ | ⟨hr, resp, hcall, hg⟩
+    · rw [hg] at h; cases h
+    · rw [hg] at h; cases h
+    · rw [hg] at h
+      simp only at h
+      by_cases hsig : a.signature = hexLower (hmac H resp.key sts)
+      · rw [if_pos hsig] at h
+        simp only [Outcome.map_ok, Outcome.ok.injEq] at h
+        exact ⟨a, resp, sts, ha, hr, hcall, hsts, hsig, by rw [← h]⟩
+      · rw [if_neg hsig] at h; cases h
 
 /-- Histories: over any sequence of validations sharing one provider, every validation makes at
 most one call, the provider state is threaded through in order, and each outcome is the outcome
@@ -69,7 +107,21 @@ theorem history {σ : Type} (H : Bytes → Bytes) (P : Provider σ) (s : σ) (l 
     let res := (validateMany H P s l).1
     res.length = l.length ∧ (∀ o ∈ res, o.2.length ≤ 1) ∧
     (res.flatMap (·.2)).length ≤ l.length := by
-  sorry
+  induction l generalizing s with
+  | nil => simp [validateMany]
+  | cons x rest ih =>
+    obtain ⟨cfg, req⟩ := x
+    rw [validateMany_cons]
+    obtain ⟨h1, h2, h3⟩ := ih (validate H cfg P s req).state
+    have hone := at_most_once H cfg P s req
+    refine ⟨?_, ?_, ?_⟩
+    · simp only [List.length_cons, h1]
+    · intro o ho
+      rcases List.mem_cons.1 ho with rfl | ho
+      · exact hone
+      · exact h2 o ho
+    · simp only [List.flatMap_cons, List.length_append, List.length_cons]
+      omega
 
 theorem history_step {σ : Type} (H : Bytes → Bytes) (P : Provider σ) (s : σ) (cfg : Config) (req : Request)
     (rest : List (Config × Request)) :
@@ -77,13 +129,23 @@ theorem history_step {σ : Type} (H : Bytes → Bytes) (P : Provider σ) (s : σ
       (((validate H cfg P s req).out, (validate H cfg P s req).calls)
           :: (validateMany H P (validate H cfg P s req).state rest).1,
         (validateMany H P (validate H cfg P s req).state rest).2) := by
-  sorry
+  exact validateMany_cons H P s cfg req rest
 
 /-- Across a history no request is ever accepted on a provider error. -/
 theorem history_never_ok_on_error {σ : Type} (H : Bytes → Bytes) (P : Provider σ) (s : σ)
     (l : List (Config × Request)) (hP : ∀ st pr, ∃ e, (P.call st pr).1 = .error e) :
     ∀ o ∈ (validateMany H P s l).1, ∀ r, o.1 ≠ .ok r := by
-  sorry
+  induction l generalizing s with
+  | nil => intro o ho; simp [validateMany] at ho
+  | cons x rest ih =>
+    obtain ⟨cfg, req⟩ := x
+    rw [history_step]
+    intro o ho r hr
+    rcases List.mem_cons.1 ho with rfl | ho
+    · obtain ⟨a, resp, _, _, _, hcall, _⟩ := never_ok_on_error H cfg P s req r hr
+      obtain ⟨e, he⟩ := hP (P.ready s).2 (providerReqOf a cfg.region cfg.service)
+      rw [he] at hcall; cases hcall
+    · exact ih _ o ho r hr
 
 end SigV4.C14
 
